@@ -17,6 +17,7 @@ type clCtx struct {
 	fset *token.FileSet
 	recv string
 	arg  string // the method's parameter (e / m / chunk / conn, b)
+	namedErr bool // the function's result is the named `err`
 }
 
 func (c *clCtx) src(n ast.Node) string {
@@ -55,6 +56,9 @@ func isNewErr(e ast.Expr) bool {
 }
 
 func (c *clCtx) ret(r *ast.ReturnStmt) string {
+	if len(r.Results) == 0 && c.namedErr {
+		return ".retNamedErr"
+	}
 	if len(r.Results) != 1 {
 		return c.unknown(r)
 	}
@@ -67,7 +71,16 @@ func (c *clCtx) ret(r *ast.ReturnStmt) string {
 	case isIdent(x, "nil"):
 		return ".retNil"
 	}
+	if c.src(x) == c.recv+".session != nil && "+c.recv+".session.TransportPhase" {
+		return ".retTransportPhase"
+	}
 	if call, ok := callOf(x); ok {
+		if c.isPath(call.Fun, "connect") && len(call.Args) == 0 {
+			return ".retConnect"
+		}
+		if c.isPath(call.Fun, "disconnect") && len(call.Args) == 0 {
+			return ".retDisconnect"
+		}
 		// return c.checkAck(chunk)
 		if c.isPath(call.Fun, "checkAck") && len(call.Args) == 1 && isIdent(call.Args[0], "chunk") {
 			return ".retCheckAck"
@@ -94,10 +107,56 @@ func (c *clCtx) writeAllCall(call *ast.CallExpr) (string, bool) {
 	return "", false
 }
 
+// idioms that span several statements, by their source text
+var seqIdioms = []struct {
+	lean string
+	src  []string
+}{
+	{".dial", []string{"conn, err := R.New()", "if err != nil { return err }"}},
+	{".readHelo", []string{"var helo protocol.Helo", "r := msgp.NewReader(R.session.Connection)", "err := helo.DecodeMsg(r)", "if err != nil { return err }"}},
+	{".drawSalt", []string{"salt := make([]byte, 16)", "_, err = rand.Read(salt)", "if err != nil { return err }"}},
+	{".newPing", []string{"ping, err := protocol.NewPing(R.Hostname, R.AuthInfo.SharedKey, salt, helo.Options.Nonce)", "if err != nil { return err }"}},
+	{".encodePing", []string{"err = msgp.Encode(R.session.Connection, ping)", "if err != nil { return err }"}},
+	{".readPong", []string{"var pong protocol.Pong", "err = pong.DecodeMsg(r)", "if err != nil { return err }"}},
+	{".validatePong", []string{"if err := protocol.ValidatePongDigest(&pong, R.AuthInfo.SharedKey, helo.Options.Nonce, salt); err != nil { return err }"}},
+	{".newSession", []string{"R.session = &Session{Connection: conn}"}},
+	{".setTransport", []string{"R.session.TransportPhase = true"}},
+	{".closeConn", []string{"err = R.session.Connection.Close()"}},
+	{".clearSession", []string{"R.session = nil"}},
+	{".disconnectIgnore", []string{"_ = R.disconnect()"}},
+}
+
+func (c *clCtx) seqIdiom(ss []ast.Stmt, i int) (string, int) {
+	for _, id := range seqIdioms {
+		if i+len(id.src) > len(ss) {
+			continue
+		}
+		ok := true
+		for j, want := range id.src {
+			norm := func(x string) string {
+				return strings.NewReplacer(", }", "}", "{ ", "{", " }", "}").Replace(x)
+			}
+			if norm(c.src(ss[i+j])) != norm(strings.ReplaceAll(want, "R.", c.recv+".")) {
+				ok = false
+				break
+			}
+		}
+		if ok {
+			return id.lean, len(id.src)
+		}
+	}
+	return "", 0
+}
+
 func (c *clCtx) block(ss []ast.Stmt) []string {
 	var out []string
 	for i := 0; i < len(ss); i++ {
 		s := ss[i]
+		if l, n := c.seqIdiom(ss, i); n > 0 {
+			out = append(out, l)
+			i += n - 1
+			continue
+		}
 		switch st := s.(type) {
 		case *ast.ExprStmt:
 			// c.<lock>.Lock() / RLock()
@@ -165,6 +224,15 @@ func (c *clCtx) block(ss []ast.Stmt) []string {
 					case be.Op == token.EQL && c.isPath(be.X, "session") && isIdent(be.Y, "nil"):
 						out = append(out, ".ifNoSession "+body())
 						continue
+					case be.Op == token.NEQ && c.isPath(be.X, "session") && isIdent(be.Y, "nil"):
+						out = append(out, ".ifSession "+body())
+						continue
+					case be.Op == token.EQL && c.isPath(be.X, "AuthInfo", "SharedKey") && isIdent(be.Y, "nil"):
+						out = append(out, ".ifNoSharedKey "+body())
+						continue
+					case be.Op == token.EQL && c.src(be.X) == "helo.Options" && isIdent(be.Y, "nil"):
+						out = append(out, ".ifHeloNoOptions "+body())
+						continue
 					case be.Op == token.NEQ && c.isPath(be.X, "Timeout") && c.src(be.Y) == "0":
 						out = append(out, ".ifTimeout "+body())
 						continue
@@ -176,6 +244,10 @@ func (c *clCtx) block(ss []ast.Stmt) []string {
 						out = append(out, ".shortIsError")
 						continue
 					}
+				}
+				if ue, ok := st.Cond.(*ast.UnaryExpr); ok && ue.Op == token.NOT && c.src(ue.X) == "pong.AuthResult" {
+					out = append(out, ".ifNotAuthResult "+body())
+					continue
 				}
 				if ue, ok := st.Cond.(*ast.UnaryExpr); ok && ue.Op == token.NOT && c.isPath(ue.X, "session", "TransportPhase") {
 					out = append(out, ".ifNotTransport "+body())
@@ -227,6 +299,9 @@ func clientSkeletons(repo string) string {
 			return
 		}
 		c := &clCtx{fset: fset, recv: recvNameOf(fd)}
+		if fd.Type.Results != nil && len(fd.Type.Results.List) == 1 && len(fd.Type.Results.List[0].Names) == 1 && fd.Type.Results.List[0].Names[0].Name == "err" {
+			c.namedErr = true
+		}
 		if fd.Type.Params != nil && arg < len(fd.Type.Params.List) && len(fd.Type.Params.List[arg].Names) == 1 {
 			c.arg = fd.Type.Params.List[arg].Names[0].Name
 		}
@@ -237,6 +312,13 @@ func clientSkeletons(repo string) string {
 	emit("Client_SendRaw", methods["Client.SendRaw"], 0)
 	emit("Client_checkAck", methods["Client.checkAck"], 0)
 	emit("writeAll", funcs["writeAll"], 1)
+	emit("Client_connect", methods["Client.connect"], 0)
+	emit("Client_disconnect", methods["Client.disconnect"], 0)
+	emit("Client_Connect", methods["Client.Connect"], 0)
+	emit("Client_Disconnect", methods["Client.Disconnect"], 0)
+	emit("Client_Reconnect", methods["Client.Reconnect"], 0)
+	emit("Client_TransportPhase", methods["Client.TransportPhase"], 0)
+	emit("Client_Handshake", methods["Client.Handshake"], 0)
 	b.WriteString("end FV.Gen.Client\n")
 	return b.String()
 }
